@@ -336,6 +336,11 @@ def shards(tier, seed):
             sh += [('alt', curve, s, m, g, dense, lo, min(n, lo + step)) for lo in range(0, n, step)]
         for s in secrets(curve):
             sh.append(('base', curve, s, None))
+    # message family: signatures whose r or s has leading zero bytes occur about once in 128 messages; the family is long
+    # enough that every key meets several of them (they are counted as the non-trivial cases of these shards)
+    for curve in ('p2', 'sp', 'ed'):
+        for s in secrets(curve):
+            sh.append(('family', curve, s, 400 if tier == 'quick' else 3000))
     return sh
 
 
@@ -357,6 +362,22 @@ def run_shard(spec, tier):
                     if last is None:
                         r.sample(case)
                     last = case
+    elif spec[0] == 'family':
+        _, curve, secret, n = spec
+        for i in range(n):
+            msg = b'family message %d' % i
+            case = {'kind': 'base', 'curve': curve, 'secret': secret, 'msg': msg, 'form': 'bytes', 'generic': bool(i % 2)}
+            r.ev()
+            vs, lab = check_base(case)
+            sig, _ = sign(curve, secret, msg, 'bytes', False)
+            d = decode_sig(sig) if sig else None
+            short = bool(d) and (d[1][0] == 0 or d[1][32] == 0)
+            if short:
+                r.nt((curve, secret, i))
+            r.out(f'{curve} family{" (r or s with a leading zero byte)" if short else ""}: {lab}' + (' VIOLATION' if vs else ''))
+            for dd, detail in vs:
+                r.viol(dd, case, detail)
+            last = case
     else:
         _, curve, secret, msg, generic, dense, lo, hi = spec
         sig, err = sign(curve, secret, msg, 'bytes', generic)
@@ -367,6 +388,15 @@ def run_shard(spec, tier):
             return r
         kind, raw = decode_sig(sig)
         alts = alterations(curve, secret, msg, tier, len(raw), len(sigref.public_from_secret(curve, secret)), dense)[lo:hi]
+        # the genuine triple is checked in THIS process before and after its alterations: a verdict must depend on
+        # (key, signature, message) only, never on what was verified earlier in the session
+        pk_str = make_key(curve, secret).public_key()
+        cname = {'ed': 'Ed25519', 'sp': 'Secp256k1', 'p2': 'P256', 'BL': 'BLS12-381'}[curve]
+        gcase = {'kind': 'alt', 'curve': curve, 'secret': secret, 'msg': msg, 'generic': generic, 'alt': ['genuine-first']}
+        g1 = (impl_verify(pk_str, sig, msg), instr_verify(pk_str, sig, msg))
+        r.ev()
+        if g1 != ('accept', 'True'):
+            r.viol(f'genuine signature not accepted at the start of a session [{cname}]', gcase, f'verify/CHECK_SIGNATURE={g1}')
         for alt in alts:
             case = {'kind': 'alt', 'curve': curve, 'secret': secret, 'msg': msg, 'generic': generic, 'alt': alt}
             vs, lab, wf, nv = judge_alt(curve, secret, msg, generic, alt, kind, raw)
@@ -383,6 +413,12 @@ def run_shard(spec, tier):
             if last is None and lo == 0:
                 r.sample(case)
             last = case
+        g2 = (impl_verify(pk_str, sig, msg), instr_verify(pk_str, sig, msg))
+        r.ev()
+        r.out(f'{curve} genuine triple before/after its alterations: {g1[1]}/{g2[1]}')
+        if g2 != ('accept', 'True'):
+            r.viol(f'genuine signature rejected after altered triples were checked in the same session [{cname}]',
+                   dict(gcase, alt=['genuine-last']), f'first {g1}, after {len(alts)} alterations {g2}')
     if last is not None:
         r.sample(last)
     return r
@@ -395,6 +431,13 @@ def replay(case):
     if sig is None:
         return [(f'sign(generic={case["generic"]}) raises', err)]
     kind, raw = decode_sig(sig)
+    if case['alt'][0].startswith('genuine'):
+        pk_str = make_key(case['curve'], case['secret']).public_key()
+        first = (impl_verify(pk_str, sig, case['msg']), instr_verify(pk_str, sig, case['msg']))
+        other = instr_verify(pk_str, sig, case['msg'] + b'\x01')
+        again = (impl_verify(pk_str, sig, case['msg']), instr_verify(pk_str, sig, case['msg']))
+        bad = [x for x in (first, again) if x != ('accept', 'True')] + ([other] if other == 'True' else [])
+        return [('verdict depends on what was verified earlier in the session', f'{first} {other} {again}')] if bad else []
     return judge_alt(case['curve'], case['secret'], case['msg'], case['generic'], case['alt'], kind, raw)[0]
 
 
@@ -406,4 +449,6 @@ def observe(case):
     if sig is None:
         return [None, err]
     kind, raw = decode_sig(sig)
+    if case['alt'][0].startswith('genuine'):
+        return sig
     return judge_alt(case['curve'], case['secret'], case['msg'], case['generic'], case['alt'], kind, raw)[1]
